@@ -121,6 +121,9 @@ func runC19(p *eng.Prog, r *eng.Report, tier string) {
 	c.r.Floor("C19.20", "character-data assertions in the payload decoders", nEC, 1)
 	nAM := attrMarshalersByValue(c, "C19.19", c19Pkgs)
 	c.r.Floor("C19.19", "attribute fields with their own marshaler", nAM, 3)
+	c19MultiValueTypes(c, "C19.25")
+	nZM := zeroValueMapStores(c, "C19.24", inC19)
+	c.r.Floor("C19.24", "stores into map fields of exported receivers", nZM, 1)
 	nRO := encodersReadOnly(c, "C19.23", inC19)
 	c.r.Floor("C19.23", "encoders examined for writes through the receiver", nRO, 100)
 	nOpt := optionalPointerFields(c, "C19.18", inC19)
